@@ -529,10 +529,12 @@ const TIMING_MENU: [(i64, &str); 14] = [
     (3500, "-20000,4,1,0,100,0,1"),
 ];
 
-const OBJECT_MENU: [(i64, &str, &str); 14] = [
+const OBJECT_MENU: [(i64, &str, &str); 15] = [
     (0, "10,20", "1,0"),
     (0, "10,20", "5,14,2:3:1:50:"),
     (500, "64,64", "21,2,0:0:0:0:file.wav"),
+    // a custom sample file whose name begins with a blank: names are kept and written verbatim
+    (500, "64,64", "1,2,0:0:0:0: lead.wav"),
     (1000, "100,100", "2,0,B|200:100|200:200,1,150"),
     (1000, "100,100", "6,2,P|150:50|200:100,3,200.25,2|4|8|0,1:2|0:0|3:3|2:1,1:1:0:0:"),
     (1000, "100,100", "2,0,L|100:100|300:100,1,0"),
